@@ -26,7 +26,8 @@ TRUSTED = ["ClientLTS.v is a hand model of AsyncIOClient.connect/_receive_loop/s
            "tools/vloop.py: virtual-time selector, fake transports, method wrappers, block -> label translation"]
 ASSUMPTIONS = ["asyncio schedules every runnable task eventually (fairness) and wall-clock effects are outside the model",
                "the application does not cancel connect/send/close tasks",
-               "build_network_map=False (no _seed_network_map task)"]
+               "the network-map seeding task (build_network_map=True) is part of the model (parameter seeding); its traces are tied to the "
+               "code by the sessions of the C14 check, this check runs clients without it"]
 ALWAYS_SEARCH = True      # the oracle re-reads the sessions the correspondence ran (cached): free, and it sees what the
 #                           control-flow model does not (which frames reach the callback)
 IMPORTS = "From NV Require Import Base ClientLTS CorrClientLTS."
